@@ -89,10 +89,9 @@ def qualifies (c : Site) : Bool :=
   (if c.onDemand then !localHost c.host else publicDNSName c.host) &&
   !localHost c.listen && !declaredHTTP c.scheme c.port && tlsAllowsManaged c
 
-/-- Hosts the qualification claim is made for (what Address.Normalize leaves in Addr.Host):
-lower case, and a ':' only inside an IP literal. -/
-def hostInScope (h : Bytes) : Bool :=
-  h == toLower h && (!hasByte h 58 || (parseIP h).isSome)
+/-- Hosts the qualification claim is made for — what standardizeAddress and Address.Normalize leave in Addr.Host:
+lower case and without a port. -/
+def hostInScope (h : Bytes) : Bool := h == toLower h && (splitHostPort h).isNone
 
 /-- `bind` values the claim is made for: empty, or a host without port (a value with a port cannot be listened on). -/
 def bindInScope (l : Bytes) : Bool := (splitHostPort l).isNone && (splitHostPort (toLower l)).isNone
